@@ -33,7 +33,8 @@ import CookModel.Lemmas.CollectorTextItems
   (`C06_cookware_references`), `BacklinksSound` (`C06_backlinks_sound`, `C06_backlinks_no_duplicates`),
   `StepRefsOK` / `SectionRefsOK` (`C06_step_reference_target`, `C06_section_reference_target`; they need
   the parser-side lemma `C06_parser_sections_outside_blocks`), `RefNamesMatch`
-  (`C06_reference_name_matches`), `RelationsShaped` (`C06_relations_shaped`).
+  (`C06_reference_name_matches`), `RelationsShaped` (`C06_relations_shaped`), `TextItemsNonEmpty`
+  (`C06_no_empty_text_item`, with the parser-side lemma `C06_parser_text_events_nonempty`).
 -/
 namespace Cook
 variable {α : Type} [Arith α]
